@@ -72,6 +72,7 @@ int main(int argc, char** argv) {
 	A = vf::parse_args(argc, argv);
 	e1::install_hooks();
 	arm_watchdog();
+	bat::g_step_hook = vf::set_step;
 	Stats top;
 	bool thorough = A.thorough();
 	g_watchdog = (int) A.geti("watchdog", thorough ? 20 : 5);
@@ -84,8 +85,9 @@ int main(int argc, char** argv) {
 		std::string bytes = entry_bytes(e, A.repo);
 		size_t cut = (size_t) c["cut"].i64();
 		vf::CrashInfo ci = vf::run_isolated(A.rundir, A.repo, g_watchdog * 4, [&]() { return workload_truncated(bytes.substr(0, cut)); });
+		std::string step0 = vf::g_last_step;
 		top.add("evaluations");
-		if (!ci.cls.empty()) top.violation(crash_key(ci, A.repo), vf::strf("%s truncated to %zu of %zu bytes: %s", e.keyname.c_str(), cut, bytes.size(), ci.text.substr(0, 400).c_str()), c);
+		if (!ci.cls.empty()) top.violation(crash_key(ci, A.repo, step0), vf::strf("%s truncated to %zu of %zu bytes: %s", e.keyname.c_str(), cut, bytes.size(), ci.text.substr(0, 400).c_str()), c);
 		vf::finish(top);
 		return 0;
 	}
@@ -131,6 +133,7 @@ int main(int argc, char** argv) {
 				vf::set_progress((long) k);
 				alarm((unsigned) g_watchdog);
 				{
+					vf::set_step("Load");
 					NifFile n;
 					int rc = s1::load(n, bytes.substr(0, cuts[k]));
 					bool valid = n.IsValid();
@@ -139,7 +142,9 @@ int main(int argc, char** argv) {
 						o.index_free = false;
 						o.hash_only = true;
 						std::string t = bat::model_text(n, o);
+						vf::set_step("Save");
 						std::string out = s1::save(n, false);
+						vf::set_step("destroy");
 						outcomes.insert(vf::fnv(t, (uint64_t) rc));
 					}
 					else outcomes.insert((uint64_t) rc);
@@ -158,16 +163,25 @@ int main(int argc, char** argv) {
 			const Entry& e = ents[u];
 			std::string bytes = entry_bytes(e, A.repo);
 			size_t cut = (size_t) c["cut"].i64();
+			std::string step0 = vf::g_last_step;
+			parent.add("evaluations");
+			std::string key0 = crash_key(ci, A.repo, step0);
+			static std::map<std::string, int> confirmed;
+			if (confirmed[key0] >= 2) {
+				parent.add("faulting_placements");
+				parent.violation(key0, vf::strf("%s truncated to %zu of %zu bytes: %s", e.keyname.c_str(), cut, bytes.size(), ci.cls.c_str()), c);
+				return "skip";
+			}
 			// replay before report: run the placement alone, with a longer limit
 			vf::CrashInfo again = vf::run_isolated(A.rundir, A.repo, g_watchdog * 4, [&]() { return workload_truncated(bytes.substr(0, cut)); });
-			parent.add("evaluations");
+			if (!again.cls.empty()) confirmed[key0]++;
 			if (again.cls.empty()) {
 				parent.add("faults_not_reproduced");
-				parent.note("not reproduced alone: " + crash_key(ci, A.repo) + " on " + inflight);
+				parent.note("not reproduced alone: " + crash_key(ci, A.repo, step0) + " on " + inflight);
 				return "skip";
 			}
 			parent.add("faulting_placements");
-			parent.violation(crash_key(again, A.repo), vf::strf("%s truncated to %zu of %zu bytes: %s", e.keyname.c_str(), cut, bytes.size(), again.cls.c_str()), c);
+			parent.violation(crash_key(again, A.repo, vf::g_last_step), vf::strf("%s truncated to %zu of %zu bytes: %s", e.keyname.c_str(), cut, bytes.size(), again.cls.c_str()), c);
 			return "skip";
 		},
 		top);
